@@ -253,6 +253,18 @@ def m_cases(tier, part):
             for file_exts in itertools.product(("html", "txt"), repeat=nfiles):
                 for lkw in ({}, {"whitespace": "oneline"}):
                     yield T.m_world(names, exts, bodies, file_exts, lkw)
+    # nested include/extends chains of three files in which one file switches autoescaping off: what
+    # follows the inner include must again be generated under the outer file's own setting
+    for names, exts, bodies in T.m_structures(3, 3):
+        if len(bodies[0]) < 2 and exts[0] is None:
+            continue
+        idx += 1
+        if idx % NPARTS != part:
+            continue
+        for off in (0, 1, 2):
+            pre = [(), (), ()]
+            pre[off] = (("autoescape", "None"),)
+            yield T.m_world(names, exts, bodies, ("html", "html", "html"), {}, pre=pre)
 
 
 FAMILIES = {"S": s_cases, "X": x_cases, "D": d_cases, "M": m_cases}
